@@ -53,6 +53,10 @@ def build(sel):
     arr.element = np.array(["N" if x.startswith("N") else "O" if x.startswith("O") else "C" for x in names])
     arr.hetero = np.array([RESN[r1] == "LIG"] * 3 + [RESN[r2] == "LIG"] * 3)
     arr.coord = np.array([[0.5 * i, -1.25 * i, 100.0 + i] for i in range(n)], dtype=np.float32)
+    if sel["box"] == 2:
+        # "unrounded" coordinates with a wide dynamic range (many decimals needed, negative extreme much larger than the
+        # positive one): exact through text and plain binary, within the compression tolerance after compress()
+        arr.coord[:, 0] = np.array([-13.206373, 0.0012345678, -7.5000005, -3.3333333, -55.00042, -1.0000001], dtype=np.float32)[:n]
     opt = sel["opt"]
     if opt & 1:
         arr.set_annotation("b_factor", np.array([10.5 + i for i in range(n)], dtype=np.float32))
@@ -97,15 +101,16 @@ def build(sel):
     return arr
 
 
-def compare(a, b, opt, with_bonds):
+def compare(a, b, opt, with_bonds, coord_rtol=0.0):
     import biotite.structure as struc
     if type(a) is not type(b) or a.array_length() != b.array_length():
         return f"type/length {type(b).__name__} {b.array_length()}"
     for cat in ("chain_id", "res_id", "ins_code", "res_name", "hetero", "atom_name", "element"):
         if a.get_annotation(cat).tolist() != b.get_annotation(cat).tolist():
             return f"{cat}: written {a.get_annotation(cat).tolist()} read {b.get_annotation(cat).tolist()}"
-    if not np.array_equal(np.asarray(a.coord), np.asarray(b.coord)):
-        return f"coord differ: {np.asarray(b.coord).tolist()}"
+    if not (np.array_equal(np.asarray(a.coord), np.asarray(b.coord)) if coord_rtol == 0 else
+            np.allclose(np.asarray(a.coord, dtype=float), np.asarray(b.coord, dtype=float), rtol=coord_rtol, atol=0)):
+        return f"coord differ: written {np.asarray(a.coord).tolist()} read {np.asarray(b.coord).tolist()}"
     for bit, cat in ((1, "b_factor"), (2, "occupancy"), (4, "charge"), (8, "atom_id"), (3, "note")):
         if opt & bit == bit and a.get_annotation(cat).tolist() != b.get_annotation(cat).tolist():
             return f"{cat}: written {a.get_annotation(cat).tolist()} read {b.get_annotation(cat).tolist()}"
@@ -142,7 +147,7 @@ def check_roundtrip(sel):
         buf.seek(0)
         g = (pdbx.CIFFile if form == "cif" else pdbx.BinaryCIFFile).read(buf)
         back = pdbx.get_structure(g, model=None if sel["models"] == 2 else 1, include_bonds=with_bonds, extra_fields=extra)
-        why = compare(atoms, back, opt, with_bonds)
+        why = compare(atoms, back, opt, with_bonds, coord_rtol=3e-6 if form == "bcif-compressed" else 0.0)
         if why:
             return f"{form}: {why}"
         results[form] = back
@@ -161,7 +166,7 @@ def check_roundtrip(sel):
             if why:
                 return f"{form} read through the dictionary-based struct_conn matcher: {why}"
     for form in ("bcif", "bcif-compressed"):
-        why = compare(results["cif"], results[form], opt, with_bonds)
+        why = compare(results["cif"], results[form], opt, with_bonds, coord_rtol=3e-6 if form == "bcif-compressed" else 0.0)
         if why:
             return f"text and {form} decode differently: {why}"
     return None
